@@ -263,7 +263,7 @@ pub fn run_history(ctx: &Ctx, h: &History, work: &Path, rotate: usize) -> Trace 
                 let launcher = match (&ctx.alt, s.alt) {
                     (Some(a), true) => {
                         s.repo = a.repo.clone();
-                        s.expected_docs = a.shipped.constants.len();
+                        s.expected_docs = a.shipped.docs();
                         &a.launcher
                     }
                     _ => &ctx.launcher,
@@ -760,6 +760,53 @@ pub fn judge_c18(_ctx: &Ctx, h: &History, trace: &Trace) -> Vec<Violation> {
     out
 }
 
+/// Does `text` (what the library rendered, and the program printed, for the value `num/den` in decimal
+/// mode) denote that value at the precision it is printed with? Read back with its exponent it must
+/// lie within one unit of its last printed digit of the value (so both cutting off and rounding
+/// pass), with the right sign. This judges the printed digits against the computed *value*, not
+/// against the library's own rendering of it. It deliberately does not judge *how* the last digit is
+/// obtained or when the continuation mark appears: that is C08's statement, not C19's (see DESIGN 14.9).
+pub fn faithful_decimal(text: &str, num: &str, den: &str) -> Result<(), String> {
+    use num::bigint::BigInt;
+    use num::{Signed, Zero};
+    let n: BigInt = num.parse().map_err(|_| "numerator does not parse".to_string())?;
+    let d: BigInt = den.parse().map_err(|_| "denominator does not parse".to_string())?;
+    if d.is_zero() {
+        return Err("zero denominator".into());
+    }
+    let negative_value = (n.is_negative()) != (d.is_negative()) && !n.is_zero();
+    let (n, d) = (n.abs(), d.abs());
+    let (neg_text, body) = match text.strip_prefix('-') {
+        Some(b) => (true, b),
+        None => (false, text),
+    };
+    let (mant, exp) = match body.split_once('e') {
+        Some((m, e)) => (m, e.parse::<i64>().map_err(|_| format!("exponent of {text:?} does not parse"))?),
+        None => (body, 0),
+    };
+    let mant = mant.strip_suffix('…').unwrap_or(mant);
+    let (int, frac) = mant.split_once('.').unwrap_or((mant, ""));
+    if int.is_empty() || !int.bytes().all(|b| b.is_ascii_digit()) || !frac.bytes().all(|b| b.is_ascii_digit()) {
+        return Err(format!("{text:?} is not a decimal"));
+    }
+    let m: BigInt = format!("{int}{frac}").parse().map_err(|_| format!("{text:?} is not a decimal"))?;
+    // printed magnitude = m * 10^(-scale)
+    let scale = frac.len() as i64 - exp;
+    let ten = BigInt::from(10);
+    let pow = |k: i64| num::pow(ten.clone(), k as usize);
+    // compare x * 10^(-scale) with n/d:   x * d * 10^max(0,-scale)   vs   n * 10^max(0,scale)
+    let lhs = |x: &BigInt| x * &d * pow((-scale).max(0));
+    let rhs = &n * pow(scale.max(0));
+    // (m - 1) * ulp < value < (m + 1) * ulp
+    if lhs(&(&m + 1)) <= rhs || (!m.is_zero() && lhs(&(&m - 1)) >= rhs) {
+        return Err(format!("{text:?} is more than one unit of its last digit away from the value {num}/{den}"));
+    }
+    if neg_text != negative_value && !m.is_zero() {
+        return Err(format!("{text:?} has the wrong sign for {num}/{den}"));
+    }
+    Ok(())
+}
+
 /// What the statement says the program prints for these library results.
 pub fn expected_stdout_lines(results: &[Res], exact: bool) -> Result<Vec<Expect>, String> {
     let mut out = Vec::new();
@@ -940,6 +987,16 @@ pub fn judge_c19(ctx: &Ctx, h: &History, trace: &Trace) -> Vec<Violation> {
             }
         }
         if let Some(a) = lib.get(query) {
+            if !*exact {
+                for r in &a.results {
+                    if let Res::Ok { num, den, detail: Some(d), .. } = r {
+                        if let Err(why) = faithful_decimal(&d.display12, num, den) {
+                            push("C19.decimal-not-the-value", format!("`any {query:?}`: the decimal printed for the result {num}/{den} is wrong: {why}; full stdout {:?}", c.stdout));
+                            break;
+                        }
+                    }
+                }
+            }
             match expected_stdout_lines(&a.results, *exact) {
                 Ok(exp) => {
                     if let Err(why) = match_stdout(&c.stdout, &exp) {
